@@ -56,6 +56,13 @@ POSTS = {
 # which bottom-up flags each function reads; other flags fixed to 0 (their caches are then empty and untouched)
 READS = {'cell': 'f', 'face': 'ef', 'edge': 've', 'vertex': 'v'}
 
+def QF(kind, on, reads):
+    if kind == 'face' and on == 'ef': return []                      # 500 s: thorough only
+    q = ['C17']
+    if on in ('', reads): q.append('C03')                              # ghost-property clauses: all-off and all-on subsets
+    if on not in ('', reads): q.append('C12')                          # mixed subsets
+    return q
+
 def obligations():
     obs = []
     for kind, P in POSTS.items():
@@ -83,7 +90,7 @@ def obligations():
                 op='swap_' + kind, op2='swap_%s2' % kind)
             obs.append(Ob(id='C17.' + n, props=['C17', 'C12', 'C03', 'C01'], tu='kernel', tier='B',
                           roots=[TK + '::swap_%s_indices' % kind], harness=mh, includes=['wf.h', 'view.h'],
-                          copies=[TK], defines=d, inline_vec=INLINE, unwind=6, covers=2, timeout=900, quick=not (kind == 'face' and on == 'ef'),
+                          copies=[TK], defines=d, inline_vec=INLINE, unwind=6, covers=2, timeout=900, quick_for=QF(kind, on, reads),
                           bounds=dict(vertices=2, edges=2, faces=2, cells=2, face_valence=2, cell_valence=2, incident_list=2),
                           note='swap_%s_indices on any WF state within the bounds; bottom-up kinds enabled: %s' % (kind, on or 'none')))
     return obs
